@@ -1,6 +1,11 @@
 package checks
 
 import (
+	"bytes"
+	"math/rand"
+	"strings"
+
+	compact_time "github.com/kstenerud/go-compact-time"
 	"math/big"
 
 	"github.com/kstenerud/go-concise-encoding/ce"
@@ -77,6 +82,28 @@ func c01Directed() [][]ev.Event {
 	}
 	ints = append(ints, ev.Event{K: ev.END})
 	out = append(out, wrap(ints...))
+	// Length sweep: every variable-length scalar at every length 1..130, each followed by a sentinel, so that an encoder or
+	// decoder scratch-buffer boundary (32, 64, 127, 128 bytes ...) is hit by every kind whatever the buffer's current size.
+	r := rand.New(rand.NewSource(20260922))
+	for n := 1; n <= 130; n++ {
+		l := []ev.Event{{K: ev.LIST}}
+		sentinel := ev.Event{K: ev.PINT, U: 65}
+		if n >= 3 && n <= 127 {
+			for _, ns := range []int{0, 5000000, 7000, 9} {
+				z := compact_time.TZAtAreaLocation(gen.SynthAreaLocation(r, n))
+				l = append(l, ev.Event{K: ev.TIME, T: compact_time.NewTime(1, 2, 3, ns, z)}, sentinel,
+					ev.Event{K: ev.TIME, T: compact_time.NewTimestamp(2020, 1, 15, 10, 0, 1, ns, z)}, sentinel)
+			}
+		}
+		if n <= 127 {
+			id := bytes.Repeat([]byte{'m'}, n)
+			l = append(l, ev.Event{K: ev.MARK, B: id}, sentinel, ev.Event{K: ev.REF, B: id})
+		}
+		l = append(l, ev.Event{K: ev.STRARR, AT: 1, S: strings.Repeat("s", n)}, sentinel,
+			ev.Event{K: ev.BINT, BI: new(big.Int).Lsh(big.NewInt(1), uint(8*n-1))}, sentinel,
+			ev.Event{K: ev.BINT, BI: new(big.Int).Neg(new(big.Int).Lsh(big.NewInt(1), uint(8*n-1)))}, sentinel, ev.Event{K: ev.END})
+		out = append(out, wrap(l...))
+	}
 	return out
 }
 
